@@ -339,6 +339,9 @@ class Gen:
         if k == "set_atom_attr":
             if rng.random() < 0.3:
                 return dict(k=k, s=s, a=a, key="atom_type", val=self.el())
+            if m.is_reaction and rng.random() < 0.2:
+                # reaction classes compare this atom attribute in ==
+                return dict(k=k, s=s, a=a, key="reaction", val=rng.choice(("centre", 1)))
             return dict(k=k, s=s, a=a, key=rng.choice(ATTR_KEYS), val=rng.choice(ATTR_VALS))
         if k == "del_atom_attr":
             keys = sorted(x for x in m.atoms[a] if x != "atom_type")
